@@ -121,8 +121,17 @@ pub fn run(ctx: &mut Ctx) {
         let nwin = wins.len();
         let kind = (idx / 10) % 6;
         let is_msd = kind != 0 || rng.chance(0.5);
-        let weights = pattern(rng, nstates, kind);
+        let mut weights = pattern(rng, nstates, kind);
         let thr = if rng.chance(0.2) { 0.5 } else { rng.uniform(0.3, 0.7) };
+        if is_msd && idx % 9 == 4 {
+            // voicing weights exactly at the threshold: "exceeds" is strict, such a state is unvoiced
+            for (i, w) in weights.iter_mut().enumerate() {
+                if i % 3 == idx % 3 {
+                    *w = thr;
+                }
+            }
+            ctx.count("cases_with_weights_exactly_at_the_threshold", 1.0);
+        }
         let durations: Vec<usize> = (0..nstates).map(|_| if idx % 7 == 0 { 1 } else { rng.range(1, 8) }).collect();
         // variance structure: independent per entry; or tied across the components of a window
         // (a shared floor) for the static window only, for every window, or everywhere
